@@ -157,6 +157,9 @@ func c33RunRaw(in []string) (obs []string) {
 				obs = append(obs, ";", "g-")
 			} else {
 				vu.Stat("get_nonempty")
+				if len(toks) > 100 {
+					vu.Stat("get_more_than_100_roots")
+				}
 				if len(toks) > 1 {
 					vu.Stat("get_several")
 				}
@@ -293,6 +296,45 @@ func init() {
 						in = append(in, ";", "G", "1", ";", "G", "2", ";", "A", "0", "1", "3", c33ids[3], ";", "G", "1", ";", "G", "2", ";", "B", ";", "G", "1")
 						emit(in...)
 					}
+				}
+			}
+			// size class: one frame with 101..300 roots (many creators, fork roots in one slot), queried
+			// before and after crossing 100 / 128 / 256 (slice capacities 100, 128, 256), on the
+			// cache-hit path (frame queried first, then appended to), the miss path (cache 0/0, or
+			// first query after all adds) and after a restart (DB scan only)
+			bigCfgs := [][2]int{{0, 0}, {1, 1}, {50, 5}, {1000, 100}, {120, 2}}
+			marks := map[int]bool{99: true, 100: true, 101: true, 127: true, 128: true, 129: true, 199: true, 255: true, 256: true, 257: true}
+			variants := 3
+			if tier == "thorough" {
+				variants = 8
+			}
+			for ci, cfg := range bigCfgs {
+				for v := 0; v < variants; v++ {
+					total := []int{101, 130, 258, 300, 150, 257, 200, 129}[(v+ci)%8]
+					frame := 1 + (v % 2)
+					in := []string{strconv.Itoa(cfg[0]), strconv.Itoa(cfg[1])}
+					hit := v%3 != 1 // query first so that later AddRoots append to the cached slice
+					if hit {
+						in = append(in, ";", "G", strconv.Itoa(frame))
+					}
+					for k := 1; k <= total; k++ {
+						creator := 1 + (k*7)%97
+						if v%3 == 2 && k%5 == 0 {
+							creator = 3 // fork roots: many ids in one slot
+						}
+						id := fmt.Sprintf("%02x%062x", (k*37)%256, k)
+						in = append(in, ";", "A", strconv.Itoa(frame-1), strconv.Itoa(frame), strconv.Itoa(creator), id)
+						if marks[k] && (hit || k > 200) {
+							in = append(in, ";", "G", strconv.Itoa(frame))
+						}
+					}
+					in = append(in, ";", "G", strconv.Itoa(frame), ";", "G", strconv.Itoa(3-frame), ";", "G", strconv.Itoa(frame))
+					if v%2 == 0 {
+						in = append(in, ";", "B", ";", "G", strconv.Itoa(frame), ";", "A", strconv.Itoa(frame-1), strconv.Itoa(frame), "2", c33ids[7], ";", "G", strconv.Itoa(frame))
+					} else {
+						in = append(in, ";", "RS", ";", "G", strconv.Itoa(frame))
+					}
+					emit(in...)
 				}
 			}
 			for i := 0; i < n; i++ {
